@@ -39,6 +39,7 @@ extern long vf_expand_requests;    /* allocations made by *expand / *LUMemInit g
 
 void  vf_reset_case(void);         /* clear plans + counters (not the ledger) */
 long  vf_live_count(void);
+long  vf_block_size(const void *p);   /* size the library asked for when it obtained the live block starting at p, -1 if p is not such a block */
 size_t vf_live_bytes(void);
 int   vf_live_list(vf_block *out, int max);
 void  vf_release_all(void);        /* free every live block (after abort / crash outcome) */
